@@ -1515,12 +1515,26 @@ class LinFamily:
         if matched != total:
             raise Infra(f"trace validation stopped at line {matched + 1} of {total}\n" + run.tail())
         lines = [json.loads(x) for x in open(trace)]
+        # open known findings (components KF:<id>): a KNOWN-FINDING line for the property that owns them, nothing for the others
+        known = {k.get("id"): k for k in vlib.load_known() if k.get("status") == "open"}
+        rest = []
+        for m in mism:
+            kf = [c[3:] for c in m[2] if c.startswith("KF:")]
+            if kf and all(c.startswith("KF:") for c in m[2]) and all(i in known for i in kf):
+                for i in kf:
+                    if known[i].get("property") == self.prop:
+                        res.known.append(f"{known[i]['line']} (1 occurrence(s) in this run)")
+                continue
+            rest.append(m)
+        mism = rest
         if self.prop == "C07":
             mism = [m for m in mism if any(c.startswith("get") or c.startswith("linget") for c in m[2])]
         elif self.prop == "C03":
             mism = [m for m in mism if any(c.startswith("ref") or c.startswith("linref") for c in m[2])]
+        elif self.prop == "C16":
+            mism = [m for m in mism if any(c.startswith("mirror") or c.startswith("linhook") for c in m[2])]
         elif self.prop in ("C01", "C08"):
-            mism = [m for m in mism if not any(c.startswith("get") or c.startswith("ref") for c in m[2])]
+            mism = [m for m in mism if not any(c.startswith("get") or c.startswith("ref") or c.startswith("mirror") for c in m[2])]
         for (ln, ev, comps) in mism[:5]:
             e = lines[ln - 1]
             rp = os.path.join(vlib.ROOT, "replays", f"{self.prop}-lin-{vlib.sha(json.dumps(e, sort_keys=True))}.json")
@@ -1530,6 +1544,9 @@ class LinFamily:
                 continue
             if ev == "linref":
                 res.violations.append({"replay": rp, "what": f"DELETE of a referenced {e['what']} was answered OK while the entry referring to it was being re-sent ({e['deletes']} DELETEs, {e['replaces']} replaces): {comps}"})
+                continue
+            if "mirrorDiffersAtQuiescence" in comps:
+                res.violations.append({"replay": rp, "what": f"after a Flush of {e['flushNIs']} interleaved with concurrent installs the fold of the post-change notifications {e.get('mirror')} differs from the installed entries {e.get('final')}"})
                 continue
             what = ("a Flush of %s interleaved with concurrent installs: no order of the acknowledged calls that respects real time folds to the installed entries %s"
                     % (e["flushNIs"], e.get("final"))) if "notLinearizable" in comps else f"concurrent Flush / install scenario did not complete: {comps}"
@@ -1559,7 +1576,7 @@ _c01_srv = ServerFamily("C01",
     exh={"quick": [], "thorough": []}, random_cfg=_rnd(["ops"], 60, 600))
 REGISTRY["C01"] = CompositeFamily("C01", [REGISTRY["C01"], _c01_srv])
 
-for _p in ("C01", "C08", "C07", "C03"):
+for _p in ("C01", "C08", "C07", "C03", "C16"):
     _old = REGISTRY[_p]
     REGISTRY[_p] = CompositeFamily(_p, (_old.parts if isinstance(_old, CompositeFamily) else [_old]) + [LinFamily(_p)])
 
